@@ -34,10 +34,8 @@ SEPok(r) ==
   /\ \A o \in Orders : SameVals(r.o, SepInOrder(ks, a, o).v)
 (* ---- ArrayFilterUsingRealDFTWithPadding -------------------------------- *)
 DFok(r) ==
-  LET k == Arr(r.klo, r.kn, r.k)
-      a == Arr(r.dlo, r.dn, r.d)
-      tol == DFTRouteTol(k, a, r.fk)
-      close(v) == Len(r.o) = Len(v) /\ \A q \in 1..Len(v) : Abs(r.o[q] - v[q] * P2(r.fk)) <= tol IN
+  \E k \in {Arr(r.klo, r.kn, r.k)} : \E a \in {Arr(r.dlo, r.dn, r.d)} : \E tol \in {DFTRouteTol(k, a, r.fk)} :
+  LET close(v) == Len(r.o) = Len(v) /\ \A q \in 1..Len(v) : Abs(r.o[q] - v[q] * P2(r.fk)) <= tol IN
   /\ ~r.err
   \* documented behaviour: "Convolution is periodic", kernel and data wrapped to the padded range
   /\ FitsPadding(k, a) => close(PerConv(k, a, r.olo, r.on).v)
@@ -65,17 +63,15 @@ MeanShape(r) ==
   \* the recorded input really is constant over the box
   /\ \A q \in 1..Size(r.dn) : LET p == Pos(r.dlo, r.dn, q - 1) IN
         (\A d \in Axes : p[d] >= r.blo[d] /\ p[d] <= r.bhi[d]) => r.d[q] = r.c
+\* (bounded quantification over a singleton makes TLC evaluate the bound value once instead of at every use)
 MEANok(r) ==
   /\ ~r.err
   /\ MeanShape(r)
-  /\ LET nz == IRNonZero(r)
-         h == HalfWidths(r, nz)
-         unit == P2(r.irk)
-         target == r.c * P2(r.fk - r.sd)
-         cnt == Cardinality(nz)
-     IN  /\ ~Clipped(r, nz)
+  /\ \E nz \in {IRNonZero(r)} : \E h \in {HalfWidths(r, nz)} : \E target \in {r.c * P2(r.fk - r.sd)} :
+     LET unit == P2(r.irk) IN
+         /\ ~Clipped(r, nz)
          \* "filters whose kernel sums to one (Gaussian, Metz at zero power)"
-         /\ Abs(Sum([q \in 1..Size(r.irn) |-> r.ir[q]]) - unit) <= unit \div P2(RelLog(r.filter)) + cnt
+         /\ Abs(Sum([q \in 1..Size(r.irn) |-> r.ir[q]]) - unit) <= unit \div P2(RelLog(r.filter)) + Cardinality(nz)
          \* "preserve the mean of data that is constant over the kernel support"
          /\ \E q \in 1..Size(r.dn) : Qualifies(r, h, Pos(r.dlo, r.dn, q - 1))
          /\ \A q \in 1..Size(r.dn) : Qualifies(r, h, Pos(r.dlo, r.dn, q - 1)) =>
@@ -107,19 +103,23 @@ TrivialND(r) ==
 \* the filter then scales constant data by the sum of the truncated kernel
 MetzTrunc(r) ==
   /\ r.e = "MEAN" /\ r.filter = "metz_array" /\ ~r.err /\ MeanShape(r)
-  /\ LET nz == IRNonZero(r)
-         h == HalfWidths(r, nz)
-         s == Sum([q \in 1..Size(r.irn) |-> r.ir[q]])
-         target == r.c * P2(r.fk - r.sd)
-         scaled == ((target \div 64) * (s \div 1024)) \div 256     \* target * s / 2^24
-     IN  /\ ~Clipped(r, nz)
+  /\ \E nz \in {IRNonZero(r)} : \E h \in {HalfWidths(r, nz)} : \E target \in {r.c * P2(r.fk - r.sd)} :
+     \E s \in {Sum([q \in 1..Size(r.irn) |-> r.ir[q]])} :
+     \E scaled \in {((target \div 64) * (s \div 1024)) \div 256} :     \* target * s / 2^24
+         /\ ~Clipped(r, nz)
          /\ \E d \in Axes : r.mk[d] > 0 /\ r.fwhm[d] > 0 /\ h[d] = (r.mk[d] \div 2) - 1
          /\ \A q \in 1..Size(r.dn) : Qualifies(r, h, Pos(r.dlo, r.dn, q - 1)) =>
                  Abs(r.o[q] - scaled) <= 2 + target \div 256
+\* C19-realinv2: inverse_fourier_for_real_data refuses arrays whose last dimension has (real) length 2, so the
+\* padded-DFT filter cannot be used with a padded length of 2 in the last dimension
+RealInv2(r) == r.e = "DF" /\ r.err /\ r.kn[3] = 2
 Classify(r) ==
   IF ~Has(r, "e") THEN "new"
   ELSE IF r.e = "CN" /\ TrivialND(r) THEN "C19-trivialnd"
   ELSE IF r.e = "MEAN" /\ MetzTrunc(r) THEN "C19-metztrunc"
+  ELSE IF r.e = "DF" /\ RealInv2(r) THEN "C19-realinv2"
+  \* not a verdict: the probe array was too small to show the whole impulse response (driver problem)
+  ELSE IF r.e = "MEAN" /\ ~r.err /\ MeanShape(r) /\ Clipped(r, IRNonZero(r)) THEN "undecided"
   ELSE "new"
 
 Init == l = 1 /\ bad = <<>>
